@@ -175,7 +175,7 @@ NAMES = "ABCDEFGHIJKL"
 def long_line(rng, target):
     """comma separated plain names, total length exactly `target` bytes; long lines are built from long
     names so that the list stays small enough to be observed through `-R exec` (one fork per host)"""
-    namelen = 8 if (target <= 3000 and rng.random() < 0.5) else rng.choice([60, 120, 250])
+    namelen = 8 if (target <= 2700 and rng.random() < 0.3) else rng.choice([60, 120, 250])
     parts, n, total = [], rng.randrange(1, 9000), 0
     while True:
         w = ("node%04d" % n) if namelen == 8 else ("n%04d" % n) + "x" * (namelen - 5)
@@ -391,9 +391,9 @@ def run_real(pdsh, case, use_exec=False):
         wopts += ["-w", w]
     stdin = (case["stdin"] or "").encode("latin-1")
     # `-Q` prints through a 1024-byte stack buffer that hostlist_deranged_string overruns (another property's
-    # defect): lists that may come near it are observed by letting pdsh act on them (-R exec, fanout 1 = in order)
+    # defect): lists that may come near it are observed by letting pdsh act on them (-R exec ... echo %n %h: rank and host)
     observe = ["-R", "exec", "-N", "-f", "1"] if use_exec else ["-Q"]
-    tail = ["echo", "%h"] if use_exec else []
+    tail = ["echo", "%n", "%h"] if use_exec else []     # %n = rank of the host in the target list
     try:
         p = subprocess.run(SETPRIV + env + [pdsh] + observe + wopts + tail, input=stdin, stdout=subprocess.PIPE,
                            stderr=subprocess.PIPE, cwd=case["casedir"], timeout=300)
@@ -406,7 +406,14 @@ def run_real(pdsh, case, use_exec=False):
     hosts = None
     if p.returncode == 0:
         if use_exec:
-            hosts = out
+            ranked = []
+            for l in out:
+                r, _, h = l.partition(" ")
+                ranked.append((int(r) if r.isdigit() else -1, h))
+            ranked.sort(key=lambda x: x[0])
+            hosts = [h for _, h in ranked]
+            if [r for r, _ in ranked] != list(range(len(ranked))):
+                hosts = ["<garbled exec output>"] + hosts
         else:
             last = out[-1] if out else ""
             if len(last) > 900:
@@ -637,7 +644,7 @@ def run(ctx):
             j = json.load(open(ctx.replay))
             cases = [case_from_json(j["case"]["case"], os.path.join(base, "replay"))]
         else:
-            n = 420 if ctx.quick() else 9000
+            n = 380 if ctx.quick() else 9000
             cases = []
             for i in range(n):
                 stream = rng.choices(["plain", "broken", "long", "malformed", "colon"], [48, 18, 17, 13, 4])[0]
